@@ -179,7 +179,8 @@ def stream_gen(ctx, name):
         return lambda o: streams.s_val(lang, tier, seed, o)
     if name.startswith("scan:"):
         _, lang = name.split(":")
-        return lambda o: streams.s_scan(lang, tier, seed, o)
+        import oracles
+        return lambda o: streams.s_scan(lang, tier, seed, o, phrases=oracles.phrase_bank(ctx, lang))
     if name.startswith("fmt:"):
         lang = name.split(":")[1]
         return lambda o: gen_apply.gen(lang, tier, seed, o, only_fmt=True)[0]
@@ -292,7 +293,7 @@ PROPS = {
     "C12": dict(module="T2N.Props.C12", streams=["ds", "pfx:en", "pfx:fr", "pfx:de"], oracles=["c12"]),
     "C13": dict(module="T2N.Props.C13", streams=["lookup"] + all_langs("applyface") + all_langs("textface"), oracles=["c13"]),
     "C14": dict(module="T2N.Props.C14", streams=["text:nl", "text:it"], oracles=["c14"]),
-    "C15": dict(module="T2N.Props.C15", streams=["script", "scan:en", "scan:de", "scan:fr"], oracles=["c15"]),
+    "C15": dict(module="T2N.Props.C15", streams=["script", "scan:en", "scan:de", "scan:fr", "scan:es", "scan:pt"], oracles=["c15"]),
     "C16": dict(module="T2N.Props.C16", streams=_apply_all(), oracles=["c16"]),
     "C17": dict(module="T2N.Props.C17", streams=["tok", "annot", "text:en", "val:en", "val:fr"], oracles=["c17"]),
     "C18": dict(module="T2N.Props.C18", streams=["annot", "text:en", "scan:en"], oracles=["c18"]),
